@@ -149,8 +149,13 @@ func main() {
 				fmt.Println("     out:", truncate(strings.ReplaceAll(o.Res.Output, "\n", " | "), 300))
 			}
 		}
+		shown := 0
 		for _, r := range results {
 			if oor[r.Name] > 0 {
+				shown++
+				if shown > 3 {
+					continue
+				}
 				fmt.Printf("FAIL %s: %d obligations out of reach\n", r.Name, oor[r.Name])
 			}
 			for i, u := range r.Unsupported {
